@@ -12,7 +12,7 @@
     adjacent_not_transparent backslash_not_transparent placeholder_text_raises percent_raises
     drop_nested_unbalanced fragments_looked_up_not_extracted
     default_cfg_include_attrs i18n_directives_sort_first contexted_table
-    lookups_subset_extract_partial choose_identity msg_lookup_extracted
+    lookups_subset_extract_partial choose_identity msg_lookup_extracted identity_transparent_msg
 -/
 import Genshi.Lemmas.I18nTree
 import Genshi.Lemmas.I18nStarts
@@ -321,6 +321,20 @@ example :
     coalesce (flattenM (trimF [.text [' ','H','i',',',' '], .elem ⟨[], ['b']⟩ [] [.expr ['n'] 0 []], .text ['!',' ']])) =
       [.text ['H','i',',',' '], .start ⟨[], ['b']⟩ [], .expr 0 [], .end_ ⟨[], ['b']⟩, .text ['!']] := by
   refine ⟨by decide +kernel, by decide +kernel, by decide +kernel, by decide +kernel⟩
+
+/-- **identity_transparent, pass and directive together.**  For `<t i18n:msg="…">F</t>`
+    (attribute values of the element and inside the message free of edge white space —
+    finding C19-attr-space — and `F` as in `translate_format_id`): the translation pass under
+    the identity catalogue followed by `MsgDirective.__call__` under the identity catalogue
+    returns the element with its content unchanged up to the white space at the edges of the
+    message and the chunking of text — for every configuration, context and flag. -/
+theorem identity_transparent_msg (cfg : Cfg) (ctx : Ctx) (ta : Bool) (t : QName) (a : TAttrs) (F : List MNode)
+    (extra : List Str) (hc : cleanM F = true) (hna : deepNoAdjM F = true) (hnd : (namesM F).Nodup)
+    (hattr : cleanList cfg (.start t a :: (flattenM F ++ [.end_ t])) = true) :
+    msgGenerate (namesM F ++ extra) (fun s => s)
+        (trList cfg Catalog.id ctx false ta 0 (.start t a :: (flattenM F ++ [.end_ t]))) =
+      .ok (.start t a :: (coalesce (flattenM (trimF F)) ++ [.end_ t])) :=
+  pass_then_msg_identity cfg ctx ta t a F extra hc hna hnd hattr
 
 /-- **identity_transparent, plural choice** (`ChooseDirective.__call__` with
     `ChooseBranchDirective.__call__`).  For `pre <ts i18n:singular>Fs</ts> mid
